@@ -153,6 +153,15 @@ func (cx *threadCtx) doHandle(c fsx.Call) fsx.Res {
 		r.Val = fmt.Sprint(n)
 
 		return r
+	case "H.WriteBig": // N bytes, more than the 512-byte minimum buffer of ReadFile
+		data := []byte(strings.Repeat("Z", int(c.N)))
+		n, err := h.Write(data)
+		fsx.Scribble(data)
+
+		r := er(err)
+		r.Val = fmt.Sprint(n)
+
+		return r
 	case "H.WriteAt":
 		data := []byte(c.Data)
 		n, err := h.WriteAt(data, c.N)
@@ -671,6 +680,8 @@ func Templates(fs string, core, removeAll bool) []Tmpl {
 		one(fsx.Call{Op: "Rename", A: "/d/e", B: "/d/y"}),
 		one(fsx.Call{Op: "Rename", A: "/d/e/z", B: "/d/z"}),
 		one(fsx.Call{Op: "Rename", A: "/d", B: "/f/d"}),
+		// replaces /d/x, whose file has a second name /d/h, from another directory
+		one(fsx.Call{Op: "Rename", A: "/f/g", B: "/d/x"}),
 		one(fsx.Call{Op: "Link", A: "/d/x", B: "/f/l"}),
 		one(fsx.Call{Op: "Link", A: "/d/e/z", B: "/d/y"}),
 		one(fsx.Call{Op: "Chmod", A: "/d/x", Perm: 0o600}),
